@@ -11,6 +11,7 @@ import (
 	"fmt"
 	"net"
 	"reflect"
+	"regexp"
 	"unsafe"
 
 	"github.com/go-kit/log"
@@ -139,6 +140,26 @@ func VerifNewQueue(l log.Logger, nodeInterfaces []string, capacity int) *Announc
 	vSet(a, "nodeInterfaces", reflect.ValueOf(append([]string{}, nodeInterfaces...)))
 	vInit(a, capacity)
 	return a
+}
+
+// VerifExclude sets the announcer's interface exclusion expression (New()'s second argument).
+func (a *Announce) VerifExclude(re *regexp.Regexp) bool { return vSet(a, "excludeRegexp", reflect.ValueOf(re)) }
+
+// VerifUpdateInterfaces runs the REAL interface rescan once (it opens raw ARP / ICMPv6 sockets on
+// the interfaces that are not excluded and starts their responders).
+func (a *Announce) VerifUpdateInterfaces() { a.updateInterfaces() }
+
+// VerifResponders returns the interface names that have an ARP / an NDP responder.
+func (a *Announce) VerifResponders() (arps, ndps []string) {
+	a.RLock()
+	defer a.RUnlock()
+	for _, r := range a.arps {
+		arps = append(arps, r.Interface())
+	}
+	for _, r := range a.ndps {
+		ndps = append(ndps, r.Interface())
+	}
+	return
 }
 
 // VerifStartSpamLoop starts the real spam loop goroutine (it never terminates).
